@@ -1,6 +1,6 @@
 package nilness
 
-// witnesses: tsdefault_same, tscase_same
+// witnesses: tsdefault_same, tscase_same, conv_src
 // Replay driver for the transfer rules of processBlock (nilness.impl$1, C15): the facts exported
 // for a function must be sound for its real executions. Scenario: in the default branch of a
 // type switch `switch y := x.(type)` the variable y IS the interface operand x; if x holds a
@@ -8,6 +8,7 @@ package nilness
 
 import (
 	"fmt"
+	"unsafe"
 	"go/types"
 	"os"
 	"os/exec"
@@ -20,6 +21,8 @@ import (
 )
 
 const verifTSSrc = `package a
+import "unsafe"
+func H(u uintptr) unsafe.Pointer { return unsafe.Pointer(u) }
 func F() any {
 	var p *int
 	var x any = p
@@ -42,6 +45,8 @@ func G() any {
 `
 
 // the same functions, executed
+func verifH(u uintptr) unsafe.Pointer { return unsafe.Pointer(u) }
+
 func verifF() any {
 	var p *int
 	var x any = p
@@ -71,7 +76,7 @@ func TestVerifReplay(t *testing.T) {
 			Requires: []*analysis.Analyzer{Analysis},
 			Run: func(pass *analysis.Pass) (any, error) {
 				res := pass.ResultOf[Analysis].(*Result)
-				for _, name := range []string{"F", "G"} {
+				for _, name := range []string{"F", "G", "H"} {
 					fn := pass.Pkg.Scope().Lookup(name).(*types.Func)
 					fmt.Printf("VERIF-NILNESS %s %v\n", name, res.Nilness(fn, 0).Outer)
 				}
@@ -92,6 +97,9 @@ func TestVerifReplay(t *testing.T) {
 	}
 	if strings.Contains(string(out), "VERIF-NILNESS G AlwaysNil") && verifG() != nil {
 		t.Errorf("REPRODUCED: G() returns a non-nil interface, yet the analysis classifies G's result as AlwaysNil (multi-type case: y is the operand itself)")
+	}
+	if strings.Contains(string(out), "VERIF-NILNESS H NeverNil") && verifH(0) == nil {
+		t.Errorf("REPRODUCED: H(0) = unsafe.Pointer(uintptr(0)) is nil, yet the analysis classifies H's result as NeverNil: a conversion from a type that is not pointer-like copied the operand's 'never nil'")
 	}
 	fmt.Println(string(out))
 }
